@@ -44,7 +44,7 @@ Definition toml_type_ok (t : ttype) (v : tval) : bool :=
   match t, v with
   | TTFlag, TBool _ => true
   | TTInt, TInt _ => true
-  | TTInt, TBool _ => true            (* isinstance(True, int) holds in Python *)
+  | TTInt, TBool _ => false           (* a boolean is no integer (fix 954a4ba; isinstance(True, int) holds in Python) *)
   | TTString, TStr _ => true
   | TTListOfStrings, TList l => forallb is_tstr l
   | _, _ => false
@@ -136,16 +136,15 @@ Section Parse.
         | AStoreTrue, None => Some (mkP (ns_set (p_ns st1) (od_dest d) (VBool true)) (p_seen_mutex st1))
         | AStoreTrue, Some _ => None
         | AStore ty ch, Some s =>
-          if option_like s then None                   (* "expected one argument" *)
-          else match convert ty ch s with
-               | Some v => Some (mkP (ns_set (p_ns st1) (od_dest d) v) (p_seen_mutex st1))
-               | None => None
-               end
+          (* a value that starts with "-" reaches argparse glued to its option (--name=value): the translation of the
+             TOML table emits that form (fix 896d4cc), and so does the harness on the command line, as argparse asks *)
+          match convert ty ch s with
+          | Some v => Some (mkP (ns_set (p_ns st1) (od_dest d) v) (p_seen_mutex st1))
+          | None => None
+          end
         | AAppend, Some s =>
-          if option_like s then None
-          else
-            let old := match ns_get (p_ns st1) (od_dest d) with Some (VList l) => l | _ => [] end in
-            Some (mkP (ns_set (p_ns st1) (od_dest d) (VList (old ++ [s]))) (p_seen_mutex st1))
+          let old := match ns_get (p_ns st1) (od_dest d) with Some (VList l) => l | _ => [] end in
+          Some (mkP (ns_set (p_ns st1) (od_dest d) (VList (old ++ [s]))) (p_seen_mutex st1))
         | _, None => None                              (* "expected one argument" *)
         end
       end
